@@ -523,18 +523,36 @@ def layer_load_chain(ctx, n):
                         f.write('<x tal:define="l load: layout.pt">F%d${structure: l(reach=reach)}</x>' % k)
                 pages.append((name, rng.random() < .5))
             ts = [(name, strict, PageTemplateFile(os.path.join(d, name), strict=strict)) for name, strict in pages]
+            # what strict compilation of the loaded file itself reports: the deferred error must be the same error -
+            # message, token, offset and the FILE it names - through whichever page it surfaces
+            ref = None
+            if not valid:
+                try:
+                    PageTemplateFile(os.path.join(d, 'layout.pt'), strict=True).cook_check()
+                except ExpressionError as e:
+                    ref = (e.args[0], str(e.token), e.offset, os.path.basename(str(e.filename)))
             steps = [(rng.randrange(len(ts)), rng.choice([0, 1])) for _ in range(rng.randint(3, 7))]
             hist = []
             for k, reach in steps:
                 name, strict, t = ts[k]
+                seen = None
                 try:
                     t(reach=reach)
                     got = 'rendered'
-                except ExpressionError:
+                except ExpressionError as e:
                     got = 'ExpressionError'
+                    seen = (e.args[0], str(e.token), e.offset, os.path.basename(str(e.filename)))
+                    fn_line = [l for l in str(e).splitlines() if l.startswith(' - Filename:')]
+                    if fn_line and not fn_line[0].rstrip().endswith('layout.pt'):
+                        seen = seen + ('message names ' + fn_line[0].strip(),)
                 except Exception as e:
                     got = 'RAISED %s' % type(e).__name__
                 want = 'rendered' if valid or (not strict and not reach) else 'ExpressionError'
+                if got == want == 'ExpressionError' and ref is not None and seen != ref:
+                    ctx.violation('deferred-error-through-another-template-differs-from-strict-error',
+                                  'layout.pt %r loaded by %s(strict=%s): the error that surfaced is %r, strict compilation of layout.pt reports %r' % (
+                                      site % bad, name, strict, seen, ref), {'kind': 'loadchain'})
+                    break
                 hist.append('%s(strict=%s).render(reach=%d)' % (name, strict, reach))
                 ctx.mon('load-chain-steps')
                 if got != want:
@@ -623,8 +641,10 @@ def layer_metal_and_error_handler_sites(ctx, n):
     from chameleon.exc import ExpressionError
     rng = ctx.rng
     for case in range(n):
-        bad = rng.choice(BADS)
-        site = rng.choice(['macro-body', 'macro-body-used', 'slot-default', 'filler', 'on-error', 'on-error-in-macro', 'macro-attribute'])
+        # invalid syntax, or an expression type nobody registered
+        bad = rng.choice(BADS + ['nosuchtype: x', 'path: a/b'])
+        site = rng.choice(['macro-body', 'macro-body-used', 'slot-default', 'filler', 'on-error', 'on-error-in-macro', 'macro-attribute',
+                           'plain-content', 'plain-interpolation', 'later-pipe-alternative'])
         lead = rng.choice(['', '\n', 'é <!-- c -->\n  '])
         B = '${%s}' % bad
         if site == 'macro-body':
@@ -641,6 +661,12 @@ def layer_metal_and_error_handler_sites(ctx, n):
             src = '<div tal:on-error="%s">${1/0 if reach else 1}</div>' % bad
         elif site == 'on-error-in-macro':
             src = '<div metal:define-macro="m%d"><b tal:on-error="%s">${1/0 if reach else 1}</b></div>' % (case, bad)
+        elif site == 'plain-content':
+            src = '<p tal:condition="reach" tal:content="%s">x</p>' % bad
+        elif site == 'plain-interpolation':
+            src = '<p tal:condition="reach">${%s}</p>' % bad
+        elif site == 'later-pipe-alternative':
+            src = '<p tal:condition="reach" tal:content="nosuchname | %s">x</p>' % bad
         else:
             src = '<div metal:define-macro="m%d"><p tal:condition="reach" tal:attributes="a %s">x</p></div>' % (case, bad)
         src = lead + '<r>' + src + '</r>'
@@ -655,7 +681,11 @@ def layer_metal_and_error_handler_sites(ctx, n):
         ctx.mon('metal-and-handler-sites')
         ctx.case(key=('metalsite', site, bad, bool(lead)), nontrivial=True)
         replay = {'kind': 'metalsite', 'src': src}
-        if strict is None or strict[0] == 'other' or strict[1] != bad.strip() or strict[2] != off + (len(bad) - len(bad.lstrip())):
+        unknown_type = bad.split(':')[0] in ('nosuchtype', 'path')
+        if unknown_type and strict is not None and strict[0] != 'other' and src[strict[2]:strict[2] + len(strict[1])] == strict[1] and \
+                off <= strict[2] <= off + len(bad):
+            pass        # (which part of 'type: text' the token covers is not specified: it is aligned and lies inside the expression)
+        elif strict is None or strict[0] == 'other' or strict[1] != bad.strip() or strict[2] != off + (len(bad) - len(bad.lstrip())):
             ctx.violation('strict-error-missing-or-misplaced:' + site, 'template %r strict: %r (planted %r at %d)' % (src, strict, bad, off), replay)
             continue
         try:
